@@ -225,6 +225,144 @@ def write_replay(pid: str, payload: dict) -> str:
     return os.path.relpath(path, VERIF)
 
 
+# ---------------------------------------------------------------- exercise gate
+# The correspondence run claims to have exercised the code the property is anchored in.
+# Statement coverage of the anchor files is measured during the run; a statement that the run
+# did not execute and that is not in the committed baseline (harness/exercise_baseline.json:
+# the statements no quick / thorough run on the pinned tree reaches, identified by file,
+# enclosing function and text — not by line number) is code the run says nothing about: the tie
+# between model and implementation is incomplete there.
+
+def _anchor_files(pid: str) -> list[str]:
+    with open(os.path.join(VERIF, "properties.jsonl"), encoding="utf-8") as f:
+        for line in f:
+            p = json.loads(line)
+            if p["id"] == pid:
+                return [os.path.join("/repo", x) for x in p["anchors"]["files"] if x.endswith(".py")]
+    return []
+
+
+def _owners(path: str):
+    """line -> qualified name of the innermost function / class BODY the line belongs to."""
+    import ast
+
+    with open(path, encoding="utf-8") as f:
+        src = f.read().splitlines()
+    owner: dict[int, str] = {}
+
+    def visit(node, qual):
+        for ch in ast.iter_child_nodes(node):
+            q = qual
+            if isinstance(ch, (ast.FunctionDef, ast.AsyncFunctionDef, ast.ClassDef)):
+                q = (qual + "." + ch.name) if qual else ch.name
+                first = ch.body[0].lineno if ch.body else ch.lineno
+                for ln in range(first, getattr(ch, "end_lineno", first) + 1):
+                    owner[ln] = q
+            visit(ch, q)
+
+    visit(ast.parse("\n".join(src)), "")
+    return src, owner
+
+
+def _function_hashes(path: str) -> dict[str, str]:
+    """qualified name -> hash of the function's source text (whitespace-normalised)."""
+    import ast
+    import hashlib
+
+    with open(path, encoding="utf-8") as f:
+        text = f.read()
+    src = text.splitlines()
+    out: dict[str, str] = {}
+
+    def visit(node, qual):
+        for ch in ast.iter_child_nodes(node):
+            q = qual
+            if isinstance(ch, (ast.FunctionDef, ast.AsyncFunctionDef, ast.ClassDef)):
+                q = (qual + "." + ch.name) if qual else ch.name
+                if not isinstance(ch, ast.ClassDef):
+                    first = min([ch.lineno] + [d.lineno for d in ch.decorator_list])
+                    body = "\n".join(x.strip() for x in src[first - 1: ch.end_lineno])
+                    out[q] = hashlib.sha1(body.encode()).hexdigest()
+            visit(ch, q)
+
+    visit(ast.parse(text), "")
+    return out
+
+
+def _statement_keys(path: str, statements, missing) -> list[tuple[str, str, str]]:
+    """Unexecuted statements inside functions of which this run executed at least one statement
+    (code the run reaches but does not cover); functions the run never enters are other
+    properties' business."""
+    src, owner = _owners(path)
+    rel = os.path.relpath(path, "/repo")
+    miss = set(missing)
+    entered = {owner.get(ln, "") for ln in statements if ln not in miss and owner.get(ln, "")}
+    return sorted({(rel, owner.get(ln, ""), src[ln - 1].strip()) for ln in miss if owner.get(ln, "") in entered})
+
+
+class Exercise:
+    def __init__(self, pid: str):
+        self.pid = pid
+        self.files = [f for f in _anchor_files(pid) if os.path.exists(f)]
+        self.cov = None
+        try:
+            import coverage
+
+            self.cov = coverage.Coverage(data_file=None, include=self.files, config_file=False)
+        except Exception:  # noqa: BLE001  no coverage module: the gate is skipped (and says so)
+            self.cov = None
+
+    def start(self):
+        if self.cov:
+            self.cov.start()
+
+    def stop(self) -> dict:
+        if not self.cov:
+            return {"measured": False}
+        self.cov.stop()
+        statements, missing = 0, []
+        for f in self.files:
+            try:
+                _, stm, _, miss, _ = self.cov.analysis2(f)
+            except Exception:  # noqa: BLE001
+                continue
+            statements += len(stm)
+            missing += _statement_keys(f, stm, miss)
+        return {"measured": True, "statements": statements, "missing": missing}
+
+
+def exercise_gaps(pid: str, tier: str, ex: dict) -> list[str]:
+    """Statements of the anchor files not executed by this run and not in the baseline."""
+    if not ex.get("measured"):
+        return []
+    dump = os.environ.get("VERIF_EXERCISE_DUMP")
+    if dump:
+        with open(dump, "w", encoding="utf-8") as f:
+            json.dump([list(k) for k in ex["missing"]], f)
+        return []
+    path = os.path.join(VERIF, "harness", "exercise_baseline.json")
+    if not os.path.exists(path):
+        return []
+    with open(path, encoding="utf-8") as f:
+        base = json.load(f)
+    allowed = {tuple(k) for k in base.get(pid, [])}
+    if pid not in base or "__functions__" not in base:
+        return []
+    # only code that differs from the pinned tree is in question: a function whose text is the one
+    # the baseline was recorded for is covered by the baseline runs whatever this seed reaches
+    changed: set[tuple[str, str]] = set()
+    for f in _anchor_files(pid):
+        if not os.path.exists(f):
+            continue
+        rel = os.path.relpath(f, "/repo")
+        known = base["__functions__"].get(rel, {})
+        for q, h in _function_hashes(f).items():
+            if known.get(q) != h:
+                changed.add((rel, q))
+    return [f"{k[0]}: {k[1] or '<module>'}: {k[2]}" for k in ex["missing"]
+            if tuple(k) not in allowed and (k[0], k[1]) in changed]
+
+
 def main() -> int:
     ap = argparse.ArgumentParser()
     ap.add_argument("pid")
@@ -261,6 +399,8 @@ def main() -> int:
             rp = json.load(f)
         return mod.replay(ctx, rp)
 
+    exercise = Exercise(pid)
+    exercise.start()
     try:
         result = mod.run(ctx, model_available=drv_ok)
     except Exception as e:  # noqa: BLE001  harness failure = broken tie, reported as such
@@ -274,6 +414,9 @@ def main() -> int:
                 "case": None,
             }],
         }
+
+    ex_res = exercise.stop()
+    gaps = exercise_gaps(pid, tier, ex_res)
 
     known = [k for k in load_known() if k["property"] == pid and k.get("status") == "known"]
     failures = result.get("failures", [])
@@ -308,8 +451,11 @@ def main() -> int:
         })
         lines.append(f"VIOLATION property={pid} replay={path}")
         violations = len(new_oracle)
-    elif not proof["ok"] or corr or not drv_ok:
+    elif not proof["ok"] or corr or not drv_ok or gaps:
         reasons = []
+        if gaps:
+            reasons.append("code of the property's anchor files that this run did not execute and that no run on the pinned tree "
+                           "leaves unexecuted (the correspondence says nothing about it): " + " | ".join(gaps[:8]))
         if not proof["ok"]:
             reasons.append(f"proof obligation no longer checks: {proof.get('failed')}")
         if not drv_ok:
@@ -337,6 +483,8 @@ def main() -> int:
         "closed_under_global_context": proof.get("closed", 0),
         "proof_ok": proof["ok"],
         "proof_failed": proof.get("failed"),
+        "exercise": {"measured": ex_res.get("measured", False), "anchor_statements": ex_res.get("statements"),
+                     "unexecuted_in_entered_functions": len(ex_res.get("missing", [])), "not_in_baseline": gaps[:20]},
         "evaluations": result.get("evaluations", 0),
         "distinct_nontrivial": result.get("distinct_nontrivial", 0),
         "rule": result.get("rule", ""),
